@@ -17,7 +17,7 @@ RULE = ('scripted models: exhaustive per-pass value sequences of one check varia
         'tol-1ulp, tol+1ulp (so |move| hits tol exactly and either side of it) x min_iter in 0..max_iter+1 x max_iter in 0..3 x failures; '
         'random 1-3 check variables (all-vs-any), positive/negative t, offsets in and out of span, hooks that write check values, affine '
         'contractive/divergent/oscillating passes, solve_period entry, some faulting scripts; instance-level lags/leads with the period on '
-        'either side of both feasibility boundaries (all n<=4 x lags,leads<=2 x both spellings of t enumerated); solve_period(label) for every label '
+        'scripts of up to 14 passes; parser-built contractive / divergent / oscillating / simultaneous equation systems run for up to 40 passes; every keyword omitted in turn (defaults); extra **kwargs used by the hooks; either side of both feasibility boundaries (all n<=4 x lags,leads<=2 x both spellings of t enumerated); solve_period(label) for every label '
         'specification (each label, an unknown label, PeriodIndex strings / year strings) on every span type of solver_common.SPAN_KIND (range, list, '
         'tuple, NumPy, pandas Index, PeriodIndex, spans with repeated and with falsy labels) x lengths 1..4 with tol-boundary scripts, compared with '
         'solve_t(position) on a twin instance; histories of 2..7 steps on ONE instance (earlier solves, copy(), reindex(same span), whole-series list and cell '
@@ -26,12 +26,19 @@ RULE = ('scripted models: exhaustive per-pass value sequences of one check varia
         'stop exactly at k=min_iter or k=max_iter, or an exception path; distinct by hash of the whole case.')
 TRUSTED = ['scripted-model subclass harness/scripted.py (same script is the Coq oracle)']
 ASSUMPTIONS = ['_evaluate and the hooks modify only variable values (not status/iterations) — the shape of the model\'s oracles',
-               't lies inside the span (-n <= t < n)']
+               't lies inside the span (-n <= t < n)',
+               'max_iter >= 0 for the clause "iterations[t] = max_iter on failure": a negative max_iter (accepted when min_iter <= max_iter) '
+               'records 0 (C02_negative_max_iter, C02_failed_iterations_eq_max_iter_refuted); the oracle uses max(max_iter, 0)',
+               'K is stricter than the oracle: it also compares the whole values store, the spelling of t handed to the hooks and the class '
+               'of the chained cause']
 EXHAUSTIVE = {'quick': False, 'thorough': False}
 CASE_TIMEOUT = 20
 
 
 def impl(case):
+    if case.get('kind') == 'parsed':
+        from props import C06 as c06
+        return c06.impl_parsed(case)
     if case.get('kind') == 'sp':
         return sc.impl_solve(case)
     if case.get('kind') == 'hist':
@@ -66,7 +73,10 @@ def gen(rng, tier):
         if r < 0.25:
             off = rng.choice([-1, 1, -2, 2, n, -n, n - 1 - p, -p, n - p, -p - 1])
             c['opts']['offset'] = off
-        L = rng.randint(0, 5)
+        L = rng.randint(0, 5) if rng.random() < 0.9 else rng.randint(6, 14)          # some long scripts (more than 5 passes)
+        if L > 5:
+            c['opts']['max_iter'] = mx = rng.randint(6, 15)
+            c['opts']['min_iter'] = mn = rng.randint(0, mx)
         kind = rng.random()
         passes = []
         if kind < 0.65:
@@ -113,6 +123,12 @@ def gen(rng, tier):
         if rng.random() < 0.1:
             c['status'][p] = rng.choice(['.', 'F', 'E', 'S'])
             c['iters'][p] = rng.randint(0, 9)
+        c['opts'] = sc.random_omit(rng, c['opts'], 0.15)         # some calls leave keywords to their defaults
+        if rng.random() < 0.1 and passes and passes[0] and passes[0][0][0] == 'set':
+            # an extra keyword argument that the hooks / _evaluate use: **kwargs must be handed down
+            c['kwargs'] = {'shift': lib.fhex(rng.choice([0.5, -1.0, 1e-11]))}
+            a = passes[0][0]
+            passes[0][0] = ['setkw', a[1], a[2], 'shift']
         if rng.random() < 0.3:
             # instance-level lags / leads: p lands on either side of both feasibility boundaries (fix eb62990)
             c['lags'] = rng.choice([0, 1, 1, 2, p, p + 1, max(p - 1, 0)])
@@ -139,6 +155,22 @@ def gen(rng, tier):
                             c['scripts'] = {str(p): {'before': [['set', 1, lib.fhex(3.0)]],
                                                      'passes': [[['set', 0, lib.fhex(1.0)]], [['set', 0, lib.fhex(1.0)]]]}}
                             fixed.append(c)
+    # parser-built equation systems from the C01 grammar: contractive, divergent, oscillating, slowly contracting, simultaneous —
+    # the real generated _evaluate runs; long runs (max_iter up to 40, tol 1e-10 / 1e-3) so that many passes are compared
+    for _ in range(300 if tier == 'quick' else 3000):
+        fixed.append(parsed_case(rng))
+    # keyword defaults: every keyword omitted in turn (and all of them) on scripts whose outcome depends on that default
+    for omit in sc.default_probe_omissions():
+        for name, ps in sc.default_probe_scripts(1).items():
+            for entry in ('solve_t', 'solve_period'):
+                base = dict(min_iter=rng.choice([0, 2]), max_iter=rng.choice([3, 7]), tol=lib.fhex(rng.choice([1e-10, 1e-9])), offset=rng.choice([0, -1]),
+                            failures=rng.choice(['raise', 'ignore']), errors=rng.choice(['raise', 'ignore']), catch_first_error=rng.random() < 0.5)
+                c = sc.base_case(nvars=2, check=(0,), endo=(0,), n=3, t=rng.choice([1, -2]), **base)
+                c['opts'] = sc.with_omitted(c['opts'], omit)
+                c['entry'] = entry
+                c['vals'][0][1] = lib.fhex(1.0)
+                c['scripts'] = {'1': ps}
+                fixed.append(c)
     return fixed + cases + span_cases(rng, tier) + [sc.hist_case(rng, errs=('raise',) * 5 + ('ignore',)) for _ in range(400 if tier == 'quick' else 4000)]
 
 
@@ -167,8 +199,40 @@ def span_cases(rng, tier):
     return out
 
 
+PARSED = [
+    ('Y = 0.5 * Y + X', {'X': [1.0, 0.0, -2.0], 'Y': [0.0, 2.0, 1e3]}),                     # contractive, fixed point 2X
+    ('Y = 0.9 * Y + X', {'X': [1.0, 0.5], 'Y': [0.0, 10.0]}),                               # slowly contractive
+    ('Y = 2 * Y + X', {'X': [1.0, 0.0], 'Y': [0.0, 1.0, -1.0]}),                            # divergent (stays at -X if started there)
+    ('Y = X - Y', {'X': [1.0, 3.0], 'Y': [0.0, 0.5, 1.5]}),                                 # oscillating (fixed point X/2)
+    ('Y = -0.5 * Y + X', {'X': [3.0, 1.0], 'Y': [0.0, 2.0]}),                               # damped oscillation
+    ('C = 0.6 * Y\nY = C + G', {'G': [1.0, 2.0], 'C': [0.0], 'Y': [0.0, 5.0]}),             # simultaneous, contractive
+    ('A = 0.5 * B + 1\nB = 0.5 * A', {'A': [0.0, 4.0], 'B': [0.0, 1.0]}),                   # two-variable contraction
+    ('A = B\nB = A + 1', {'A': [0.0], 'B': [0.0, 1.0]}),                                    # divergent pair
+    ('Y = 0.5 * Y[-1] + X', {'X': [1.0, 2.0], 'Y': [0.0, 1.0]}),                            # recursive: settles at once
+    ('K = K[-1] + I\nI = 0.25 * K', {'K': [1.0, 2.0], 'I': [0.0, 1.0]}),                    # simultaneous with a lag
+]
+
+
+def parsed_case(rng):
+    eqs, init = PARSED[rng.randrange(len(PARSED))]
+    n = rng.choice([2, 3])
+    p = rng.randrange(1, n)
+    t = p if rng.random() < 0.7 else p - n
+    mx = rng.choice([0, 1, 2, 3, 5, 8, 13, 25, 40])
+    mn = min(rng.choice([0, 0, 1, 2, 7, mx, mx + 1]) if rng.random() < 0.9 else mx, mx + 1)
+    o = dict(min_iter=mn, max_iter=mx, tol=lib.fhex(rng.choice([1e-10, 1e-10, 1e-3, 0.5])), offset=rng.choice([0, 0, 0, -1]),
+             failures=rng.choice(['raise', 'ignore']), errors='raise', catch_first_error=rng.random() < 0.5)
+    ini = {nm: [lib.fhex(rng.choice(c)) for _ in range(n)] for nm, c in init.items()}
+    return {'kind': 'parsed', 'equations': eqs, 'n': n, 't': t, 'opts': sc.random_omit(rng, o, 0.1), 'init': ini}
+
+
+def view(case, obs):
+    """the scripted-format case an observation is about (parser-built models: derived from the recorded run)"""
+    return obs['as_scripted'] if case.get('kind') == 'parsed' else case
+
+
 def correspond(cases, obs, tag, tier):
-    one = [(i, c, o) for i, (c, o) in enumerate(zip(cases, obs)) if c.get('kind') not in ('sp', 'hist')]
+    one = [(i, view(c, o), o) for i, (c, o) in enumerate(zip(cases, obs)) if c.get('kind') not in ('sp', 'hist')]
     hist = [(i, c, o) for i, (c, o) in enumerate(zip(cases, obs)) if c.get('kind') == 'hist']
     sp = [(i, c, o) for i, (c, o) in enumerate(zip(cases, obs)) if c.get('kind') == 'sp']
     bad, errs = [], []
@@ -192,7 +256,7 @@ def explain(case, obs):
         return sc.explain_solve(case, obs)
     if case.get('kind') == 'hist':
         return sc.explain_hist(case, obs)
-    return sc.explain_solve_t(case, obs)
+    return sc.explain_solve_t(view(case, obs), obs)
 
 
 def guard(case, obs):
@@ -210,7 +274,7 @@ def oracle(case, obs):
         return oracle_sp(case, obs)
     if case.get('kind') == 'hist':
         return oracle_hist(case, obs)
-    return oracle_t(case, obs)
+    return oracle_t(view(case, obs), obs)
 
 
 def oracle_hist(case, obs):
@@ -362,7 +426,7 @@ def bucket(case, obs):
 
 
 def shrink_candidates(case):
-    if case.get('kind') == 'sp':
+    if case.get('kind') in ('sp', 'parsed'):
         return
     if case.get('kind') == 'hist':
         for i in reversed(range(len(case['calls']))):
